@@ -81,7 +81,13 @@ CHECKS = {
             'reset on partial acceptance, namespaces / get_sid / connected '
             'mirror, BadNamespaceError without frames, connect handler once, '
             'disconnect handler once per connected namespace, nothing '
-            'survives into the next connection).'),
+            'survives into the next connection).  Also a client with '
+            'automatic reconnection (losses mid binary packet / with '
+            'callbacks outstanding; the connection it makes by itself is '
+            'judged the same way) and a CONNECT reply arriving together '
+            'with the loss of the transport under free thread schedules.  '
+            'Known findings: C08:root_namespace_refusal_resets_client, '
+            'C08:late_connect_reply_after_transport_loss.'),
     'C09': ('DESIGN 4/C09',
             'Seeded search over histories of server-sent EVENT / BINARY_EVENT '
             '/ ACK / BINARY_ACK frames from a scripted server (real engine.io, '
